@@ -254,6 +254,12 @@ def run_impl(b, dtype, via, tmp):
                     x = read_signal(io.BytesIO(b), dtype=dt, force_as="sph")
             elif via == "offset":     # the file is the second record of a seekable stream
                 x = read_signal(common.offset_stream(b), dtype=dt, force_as="sph")
+            elif via == "fdfile":     # a stream opened from a file descriptor (tempfile.TemporaryFile, os.fdopen): `.name` is an int
+                p = tmp.path()
+                with open(p, "wb") as f:
+                    f.write(b)
+                fh = os.fdopen(os.open(p, os.O_RDONLY), "rb")
+                x = read_signal(fh, dtype=dt, force_as="sph")
             else:
                 p = tmp.path()
                 with open(p, "wb") as f:
@@ -337,7 +343,7 @@ EXTRA_LINES = [
     "sample_max -r 0.5",
 ]
 DTYPES = ["none"] * 6 + ["i16", "u8", "i8", "i32", "i64", "f64", "u16", "u32"]
-VIAS = ["path", "path_force", "stream", "bytesio", "pipe", "offset"]
+VIAS = ["path", "path_force", "stream", "bytesio", "pipe", "offset", "fdfile"]
 
 
 def size_line(h):
